@@ -348,7 +348,6 @@ impl<L: ChainListener> ChainTracker<L> {
                     supplied_prev_headers.0.block_hash().to_string()
                 ));
             }
-            self.headers.pop_front();
         };
 
         let mut prev_headers = supplied_prev_headers;
@@ -378,6 +377,10 @@ impl<L: ChainListener> ChainTracker<L> {
                 )),
             ProofType::ExternalBlock() => self.notify_listeners_remove(None, tip_block_hash),
         };
+
+        // forget the previous header only once the removal has been validated, so that a
+        // refused removal leaves the remembered headers as they were
+        self.headers.pop_front();
 
         info!("removed block {}: {}", self.height, &self.tip.0.block_hash());
         mem::swap(&mut self.tip, &mut prev_headers);
